@@ -1030,3 +1030,127 @@ def cmp_c09_wire(payload, impl, model):
 
 PROPS["C09"]["suites"].append(("wirenum", dict(cmp=cmp_c09_wire, nontrivial=lambda p, i, m: abs(int(p.split()[2])) > 1, shrink=False,
                                                 what="hand-serialized integers (JSON decimal text; CBOR major 0/1 heads) through refmt.Unmarshal into every integer kind, interface{} and floats: exact or error, against an independent range oracle; floats against the model")))
+
+
+# ---------------------------------------------------------------------------
+# autogen (C19): impl  = m0=<fields>;m1=..;m2=..;v0=<class> <n> | <tokens> # <rt cbor> <rt json>;...
+#                model = m0=..;m1=..;m2=..;spec=<0|1>;v0=<class> <n> | <tokens>;...
+# ---------------------------------------------------------------------------
+
+def _kv(s):
+    d = {}
+    for part in s.split(";"):
+        k, _, v = part.partition("=")
+        d[k] = v
+    return d
+
+
+def _unhex_names(fields):
+    def un(m):
+        h = m.group(1)
+        try:
+            return "(fld %r" % (bytes.fromhex(h).decode("utf-8", "replace") if h != "-" else "")
+        except ValueError:
+            return m.group(0)
+    return re.sub(r"\(fld (\S+)", un, fields)
+
+
+def cmp_c19(payload, impl, model):
+    if impl in ("not-compiled", "bad-payload"):
+        return dict(kind="broken", component="autogen-harness", detail="the harness does not hold this family: " + impl)
+    iv, mv = _kv(impl), _kv(model)
+    if "atlas" in iv:
+        return viol("autogenerated entries of the family cannot be built into an atlas: " + iv["atlas"])
+    modes = ["default (declaration order)", "strings", "RFC7049"]
+    for m in range(3):
+        k = "m%d" % m
+        if iv.get(k) == "panic":
+            return viol("AutogenerateStructMapEntryUsingTags panicked (sort mode %s)" % modes[m])
+        if iv.get(k) != mv.get(k):
+            return viol("sort mode %s: the autogenerated mapping is %s but Go's promotion rules on serial names select %s"
+                        % (modes[m], _unhex_names(iv.get(k, "?"))[:400], _unhex_names(mv.get(k, "?"))[:400]))
+    if mv.get("spec") != "1":
+        return viol("the mapping (model transcription, equal to the code's) differs from the specification 'selected' (Go promotion rules): " + _unhex_names(mv.get("m1", ""))[:300])
+    k = 0
+    while ("v%d" % k) in iv:
+        ivk, _, rt = iv["v%d" % k].partition(" # ")
+        mvk = mv.get("v%d" % k, "?")
+        cls = ivk.split(" ", 1)[0]
+        if cls in ("panic", "hang"):
+            return viol("marshalling value %d of the generated type through its autogenerated mapping: %s" % (k, cls))
+        if ivk.strip() != mvk.strip():
+            return viol("value %d marshals as %s; through the mapping Go's rules select it is %s" % (k, ivk[:300], mvk[:300]))
+        for fmtname, verdict in zip(("CBOR", "JSON"), rt.split()):
+            if verdict not in ("ok", "ok-unsettable"):
+                if verdict.startswith("diff:"):
+                    verdict = "field differs: " + bytes.fromhex(verdict[5:]).decode("utf-8", "replace")
+                return viol("value %d does not round-trip through the autogenerated mapping (%s): %s" % (k, fmtname, verdict))
+        k += 1
+    return None
+
+
+def _prepare_autogen(seed, tier):
+    import common
+    return common.prepare_autogen(seed, tier)
+
+
+def _autogen_replay_binary(payload):
+    import common
+    return common.autogen_replay_binary(payload)
+
+
+PROPS["C19"] = dict(
+    coq="Properties_C19",
+    level_text="Proved in Coq on a statement-by-statement transcription (Autogen.explore) of exploreFields/dominantField and the three orders: the mapping it produces is, as a set, exactly what Go's promotion rules select on serial names (Autogen.selected: shallowest depth wins, at equal depth the single tagged field wins, ambiguity drops the name, '-' and unexported fields are never candidates), every entry's route resolves to the field it was derived from, names are distinct, and the result is sorted by the chosen mode. Tied to the code by struct type families generated as Go source, compiled, described back through reflect and run through AutogenerateStructMapEntryUsingTags in all three sort modes; values of those types (nil and non-nil embedded pointers) are marshalled through the mapping (tokens compared with the model's marshaller under the model's mapping) and round-tripped through CBOR and JSON with a field-wise oracle.",
+    level_note="reflect.StructTag.Get, unicode.IsUpper/ToLower outside the ASCII/Latin-1/Greek/Cyrillic ranges the generator draws from, and sort.Sort are Go's; fields behind a nil embedded pointer to an unexported struct type cannot be allocated by reflection: unmarshal reports an error there, which the oracle accepts. Trusted as in trusted_base.",
+    rule="struct type family (root + embedded types) x 3 sort modes x 4 values; non-trivial = the family embeds at least one struct; distinct by payload",
+    trusted_base=_OBJ_TB + ["lib/autogen_gen.py renders family specs as Go source; the model's input is the description reflect gives back of the compiled types, not the spec"],
+    assumptions=["field types are drawn from int64, string, bool, *int64, []string, named int64/string and the family's structs"],
+    suites=[("autogen", dict(cmp=cmp_c19, shrink=False, prepare=_prepare_autogen, replay_binary=_autogen_replay_binary, timeout=3600,
+                             nontrivial=lambda p, i, m: "(st " in p.split("|")[2],
+                             what="generated struct families compiled into the harness: atlas.AutogenerateStructMapEntryUsingTags (3 modes) vs Autogen.explore and Autogen.selected; obj.Marshaller tokens vs Marshal.marshal_top under the model's mapping; CBOR and JSON round trip with nil / non-nil / mixed embedded pointers"))],
+)
+
+
+def _names_in_order(fields):
+    return re.findall(r"\(fld (\S+)", fields)
+
+
+def cmp_c08_autogen(payload, impl, model):
+    """C08 on autogenerated structs: the order of the fields in each sort mode (the set of fields is C19's business)."""
+    iv, mv = _kv(impl), _kv(model)
+    modes = ["default (declaration order)", "strings", "RFC7049"]
+    for m in range(3):
+        a, b = _names_in_order(iv.get("m%d" % m, "")), _names_in_order(mv.get("m%d" % m, ""))
+        if sorted(a) == sorted(b) and a != b:
+            un = lambda l: [bytes.fromhex(x).decode("utf-8", "replace") if x != "-" else "" for x in l]
+            return viol("autogenerated struct fields in sort mode %s are ordered %s; the configured order is %s" % (modes[m], un(a)[:40], un(b)[:40]))
+    return None
+
+
+def cmp_c01_autogen(payload, impl, model):
+    """C01 on autogenerated struct maps: values marshal as the mapping prescribes and round-trip."""
+    if impl in ("not-compiled", "bad-payload"):
+        return dict(kind="broken", component="autogen-harness", detail=impl)
+    iv, mv = _kv(impl), _kv(model)
+    if "atlas" in iv:
+        return viol("autogenerated entries cannot be built into an atlas: " + iv["atlas"])
+    k = 0
+    while ("v%d" % k) in iv:
+        ivk, _, rt = iv["v%d" % k].partition(" # ")
+        cls = ivk.split(" ", 1)[0]
+        if cls in ("panic", "hang"):
+            return viol("marshalling value %d through its autogenerated mapping: %s" % (k, cls))
+        for fmtname, verdict in zip(("CBOR", "JSON"), rt.split()):
+            if verdict not in ("ok", "ok-unsettable"):
+                if verdict.startswith("diff:"):
+                    verdict = "field differs: " + bytes.fromhex(verdict[5:]).decode("utf-8", "replace")
+                return viol("value %d of an autogenerated struct type does not round-trip (%s): %s" % (k, fmtname, verdict))
+        k += 1
+    return None
+
+
+_AUTOGEN_COMMON = dict(shrink=False, prepare=_prepare_autogen, replay_binary=_autogen_replay_binary, timeout=3600, harness_suite="autogen", model_suite="autogen",
+                       nontrivial=lambda p, i, m: "(st " in p.split("|")[2])
+PROPS["C08"]["suites"].append(("autogen-order", dict(cmp=cmp_c08_autogen, what="generated struct families (incl. 13-40 field structs): field order of AutogenerateStructMapEntryUsingTags in the three sort modes vs Autogen.explore", **_AUTOGEN_COMMON)))
+PROPS["C01"]["suites"].append(("autogen-roundtrip", dict(cmp=cmp_c01_autogen, what="generated struct families: values with nil / non-nil / mixed embedded pointers marshalled and unmarshalled (CBOR, JSON) through autogenerated struct maps, field-wise oracle", **_AUTOGEN_COMMON)))
